@@ -160,6 +160,7 @@ func (c13) Exec(op string) string {
 	return recoverStr(func() string {
 		rig := redis.VerifNewRig(fmt.Sprintf("c13-%d", seed), hx.RedisConfig(pbredis.ReadStrategy_MASTER, &pbredis.Compression{Enable: false, Threshold: 1}),
 			[]*host.Host{host.New(hx.NodeAddr(0)), host.New(hx.NodeAddr(1))}, []string{hx.NodeAddr(0), hx.NodeAddr(1)})
+		defer hx.DropScopes(rig.ScopeName())
 		rig.SetSlot(0, 16383, hx.NodeAddr(0), nil)
 		store := &kvStore{str: map[string][]byte{}, hash: map[string]map[string][]byte{}}
 		written := map[string][]byte{} // key (or key/field) -> original value
